@@ -1,7 +1,7 @@
 (* Model of /repo/util/container/intset.go — executable definitions only (no proofs). *)
 From Coq Require Import List ZArith Bool.
 Import ListNotations.
-Open Scope Z_scope.
+Local Open Scope Z_scope.
 
 Record intset := mkIntSet { inverse : bool; elems : list Z }.
 
